@@ -400,16 +400,34 @@ fn log_server_events(mut log: ResMut<ConnLog>, mut ev: EventReader<bevy_renet::r
     }
 }
 
-/// commands the application systems issue at their next run: (system index, entity to despawn)
+/// commands the application systems issue at their next run
+#[derive(Clone, Copy)]
+pub enum AppCmd {
+    /// commands.entity(e).despawn() if e still exists
+    Despawn(Entity),
+    /// commands.entity(e).insert(T(v)): an application system writing a component in the middle of a frame
+    Insert(Entity, u32, u64),
+}
 #[derive(Resource, Default)]
-pub struct AppCmds(pub Vec<(usize, Entity)>);
+pub struct AppCmds(pub Vec<(usize, AppCmd)>);
 
 fn run_app_cmds(k: usize, cmds: &mut AppCmds, commands: &mut Commands) {
-    let mine: Vec<Entity> = cmds.0.iter().filter(|(i, _)| *i == k).map(|(_, e)| *e).collect();
+    let mine: Vec<AppCmd> = cmds.0.iter().filter(|(i, _)| *i == k).map(|(_, e)| *e).collect();
     cmds.0.retain(|(i, _)| *i != k);
-    for e in mine {
-        if let Some(mut ec) = commands.get_entity(e) {
-            ec.despawn();
+    for c in mine {
+        match c {
+            AppCmd::Despawn(e) => {
+                if let Some(mut ec) = commands.get_entity(e) {
+                    ec.despawn();
+                }
+            }
+            AppCmd::Insert(e, t, n) => {
+                commands.add(move |world: &mut World| {
+                    // EntityCommands::insert on a despawned entity panics (B0003): so does this
+                    let _ = world.entity_mut(e);
+                    write_value(world, e, t, n);
+                });
+            }
         }
     }
 }
@@ -832,11 +850,16 @@ impl Session {
                 }
             }
             "appcmd" => {
-                // appcmd n despawn h
+                // appcmd n despawn h | appcmd n insert h t v
                 let n: usize = w[1].parse().unwrap();
                 let h: u64 = w[3].parse().unwrap();
                 if let Some(e) = self.resolve(p, h) {
-                    self.peers[p].app.world_mut().resource_mut::<AppCmds>().0.push((n, e));
+                    let c = if w[2] == "insert" {
+                        AppCmd::Insert(e, w[4].parse().unwrap(), w[5].parse().unwrap())
+                    } else {
+                        AppCmd::Despawn(e)
+                    };
+                    self.peers[p].app.world_mut().resource_mut::<AppCmds>().0.push((n, c));
                 }
             }
             "skin" => {
